@@ -252,7 +252,9 @@ fn mismatch_detail(op: &Op, cfg: &SlotCfg, want: &Outcome, got: &Outcome) -> Str
 fn entry_point_check(spec: &RunSpec, table: &RefTable, out: &mut Vec<Violation>, counters: &mut Counters) -> Result<(), BuildFail> {
     for (op, res) in table.ops.iter().zip(table.outs.iter()) {
         let cfg = &spec.slots[op.slot];
-        if cfg.kind.is_probe() && !op.plan.is_empty() {
+        // user strategies need not be pure (the stub's values carry the callback index): the
+        // entry-point clause is about the built-in strategies
+        if cfg.kind.is_probe() {
             continue;
         }
         // single-point entry points among themselves: interp_scalar / interp_into vs interp
@@ -467,25 +469,44 @@ pub fn check_c18(op: &Op, cfg: &SlotCfg, out: &Outcome, thread: usize, opi: usiz
                 push("result-shape", format!("{} result elements, expected {}", out.bits.len(), query.len() * lanes));
                 return;
             }
-            for (i, &(xb, yb)) in query.iter().enumerate() {
-                for l in 0..lanes {
-                    let want = stub::enc(xb, yb, l).to_bits();
-                    let got = out.bits[i * lanes + l];
-                    if got != want {
-                        // which query element's value is it, if any?
-                        let whose = query.iter().enumerate().find_map(|(j, &(a, b))| (0..lanes).find(|&m| stub::enc(a, b, m).to_bits() == got).map(|m| (j, m)));
-                        push(
-                            "wrong-target",
-                            format!(
-                                "result element (query #{i}, lane {l}) does not hold the value the strategy wrote for it ({})",
-                                match whose {
-                                    Some((j, m)) => format!("it holds the value written for query #{j}, lane {m}"),
-                                    None if got == poison_bits() => "buffer element never written".to_string(),
-                                    None => format!("holds {:?}", f64::from_bits(got)),
+            // every result element must hold what ONE callback that received this element's query
+            // value wrote into its target, and no two query elements may be served by the same
+            // callback (a target the strategy never got - e.g. a copy of a neighbour's row made by
+            // the library - is not a correct target, whatever it contains)
+            let mut used = vec![false; out.stub.seen.len()];
+            if lanes > 0 && out.stub.calls as usize <= out.stub.seen.len() {
+                for (i, &(xb, yb)) in query.iter().enumerate() {
+                    let got0 = out.bits[i * lanes];
+                    let k = (0..out.stub.seen.len()).find(|&k| !used[k] && out.stub.seen[k] == (xb, yb) && stub::enc(xb, yb, 0, k as u32).to_bits() == got0);
+                    match k {
+                        Some(k) if (0..lanes).all(|l| out.bits[i * lanes + l] == stub::enc(xb, yb, l, k as u32).to_bits()) => used[k] = true,
+                        _ => {
+                            // explain: whose value is it?
+                            let mut whose = None;
+                            'f: for (j, &(a, b)) in query.iter().enumerate() {
+                                for k2 in 0..out.stub.seen.len() {
+                                    for m in 0..lanes {
+                                        if stub::enc(a, b, m, k2 as u32).to_bits() == got0 {
+                                            whose = Some((j, m, k2));
+                                            break 'f;
+                                        }
+                                    }
                                 }
-                            ),
-                        );
-                        return;
+                            }
+                            push(
+                                "wrong-target",
+                                format!(
+                                    "result element (query #{i}) does not hold what a callback that received this query element wrote into its own target ({})",
+                                    match whose {
+                                        Some((j, m, k2)) if j == i || query[j] == query[i] => format!("it holds the values callback {k2} wrote, which already serve another result element with the same query value: the strategy was never given this element's target"),
+                                        Some((j, m, k2)) => format!("it holds the value callback {k2} wrote for query #{j}, lane {m}"),
+                                        None if got0 == poison_bits() => "buffer element never written".to_string(),
+                                        None => format!("holds {:?}", f64::from_bits(got0)),
+                                    }
+                                ),
+                            );
+                            return;
+                        }
                     }
                 }
             }
